@@ -1,4 +1,61 @@
-(* C07 placeholder, replaced below *)
-From RV Require Import Model.Mapping.
-Theorem C07_placeholder : True. Proof. exact I. Qed.
-Eval cbv in "ASSUMPTIONS-OF C07_placeholder"%string. Print Assumptions C07_placeholder.
+(* C07  Rendered parameters are plain, closed data and a fixed point.  Statements only; proofs
+   in Proofs/InterpFacts.v (mutual induction on the fuel of the interpreter of Model/Interp.v)
+   and Proofs/FixedPoint.v.
+   [wf]: every mapping has duplicate-free keys without a leading marker -- what the YAML
+   conversion produces when keys carry at most one marker (see Proofs/YamlFacts.v); keys with
+   two markers ("~~k") are outside this domain (DESIGN, finding F14).
+   [closed]: no unparsed String and no ValueList in any value position. *)
+From RV Require Import Model.Interp Proofs.WfFacts Proofs.InterpFacts Proofs.FixedPoint.
+
+(** Every successful interpolation returns closed data: null, bool, number, literal string,
+    list or mapping all the way down -- no reference left, no multi-layer artefact. *)
+Theorem C07_interpolation_result_is_closed :
+  forall f root v st v' st',
+    wf (VMap root) -> wf v -> interp f root v st = Ok (v', st') -> closed v' /\ wf v'.
+Proof. exact interp_closed. Qed.
+Eval cbv in "ASSUMPTIONS-OF C07_interpolation_result_is_closed"%string. Print Assumptions C07_interpolation_result_is_closed.
+
+Theorem C07_rendered_parameters_are_closed :
+  forall f v r, wf v -> render_with_self f v = Ok r -> closed r /\ wf r.
+Proof. exact render_with_self_closed. Qed.
+Eval cbv in "ASSUMPTIONS-OF C07_rendered_parameters_are_closed"%string. Print Assumptions C07_rendered_parameters_are_closed.
+
+(** Keys appear as written minus their marker (the marker was stripped when the mapping was
+    built; rendering keeps the keys and their order). *)
+Theorem C07_keys_kept_without_marker :
+  forall f root m st m',
+    wf (VMap root) -> wf (VMap m) -> mapping_interp f root m st = Ok m' ->
+    keys m' = keys m /\ Forall unmarked (keys m').
+Proof.
+  intros f root m st m' Hr Hm H. pose proof (mapping_interp_keys f root m st m' Hr Hm H) as E.
+  split; [exact E|]. rewrite E. apply wf_map_iff in Hm. tauto.
+Qed.
+Eval cbv in "ASSUMPTIONS-OF C07_keys_kept_without_marker"%string. Print Assumptions C07_keys_kept_without_marker.
+
+(** Rendering already rendered parameters again -- against any root -- leaves them unchanged
+    (fuel beyond twice the nesting depth; fuel is the model's call-depth bound, not a limit of
+    the code). *)
+Theorem C07_fixed_point :
+  forall root f r, 2 * vdepth r < f -> closed r -> wf r -> simple_keys r -> rendered f root r = Ok r.
+Proof. exact rendered_fixed_point. Qed.
+Eval cbv in "ASSUMPTIONS-OF C07_fixed_point"%string. Print Assumptions C07_fixed_point.
+
+(** Flattening closed data is the identity (no hidden second pass changes rendered data). *)
+Theorem C07_flatten_identity_on_closed :
+  forall ck v, closed v -> wf v -> flattened ck v = Ok v.
+Proof. exact flattened_closed_id. Qed.
+Eval cbv in "ASSUMPTIONS-OF C07_flatten_identity_on_closed"%string. Print Assumptions C07_flatten_identity_on_closed.
+
+(** Non-vacuity: a well-formed root with a reference and a two-layer key renders to closed data. *)
+Example C07_nonvacuous :
+  let root := [ mk_entry (VStr "a") (VList [VMap [mk_entry (VStr "x") (VNum (NInt 1)) false false];
+                                            VMap [mk_entry (VStr "y") (VStr "${b}") false false]]) false false;
+                mk_entry (VStr "b") (VSeq [VStr "t"; VNull]) false false ] in
+  wf (VMap root) /\
+  exists r, render_with_self 50 (VMap root) = Ok r /\ closed r /\
+            rendered 50 [] r = Ok r.
+Proof.
+  cbn zeta. split.
+  - cbn. repeat split; repeat constructor; cbn; intuition discriminate.
+  - eexists. split; [vm_compute; reflexivity|]. split; [cbn; tauto | vm_compute; reflexivity].
+Qed.
